@@ -16,6 +16,11 @@ R21d exact operands: no value that reaches the comparison passes through binary 
      build the operand locals (and the locals they derive from) contain no float(...) call and no call to a repository
      function annotated `-> float` (Decimal / pint Quantity over Decimal are exact; a float round trip makes values that
      differ beyond ~16 significant digits compare equal, or invert '<').
+R21e one conversion for all operators: when the two operands carry *different* units the comparison is made on a pair that was
+     converted to one common unit explicitly (`.to(<unit>)` / `.to_base_units()` on both, or magnitudes of such). Comparing two pint
+     Quantity objects of different units directly lets every operator choose its own conversion (pint: `==` converts the right operand
+     into the left unit, `!=` the other way round, the ordering operators both to root units), each rounded to 28 digits - physically
+     equal quantities then satisfy neither `=` nor `!=`, or both `<` and `=` (library behaviour, stated as an assumption).
 """
 from __future__ import annotations
 
@@ -29,7 +34,7 @@ UNITS = "openpectus.lang.exec.units"
 PYOP = {ast.Lt: "<", ast.LtE: "<=", ast.Gt: ">", ast.GtE: ">=", ast.Eq: "==", ast.NotEq: "!="}
 
 
-def run(ctx) -> None:
+def _run_main(ctx) -> None:
     prog = ctx.prog
     for r, d in [("R21a", "operator dispatch table"), ("R21b", "comparability relation is symmetric"), ("R21c", "operands normalised alike")]:
         ctx.rule(r, d)
@@ -236,3 +241,50 @@ def run(ctx) -> None:
                  "(e.g. 1 ms < 0.0010000000000000000001 s)")
     else:
         ctx.ok("R21d", inst, {"rule": "R21d", "operand_definitions": n_def})
+
+
+def _r21e(ctx) -> None:
+    from ..util import local_all_defs
+    prog = ctx.prog
+    ctx.rule("R21e", "operands of different units are converted to one common unit before any operator is applied")
+    cv = prog.func(f"{UNITS}:compare_values")
+    ctx.analysed(cv)
+    # the operand locals of the match arms
+    ops = set()
+    for n in walk_no_nested(cv.node):
+        if isinstance(n, ast.Compare) and len(n.ops) == 1 and isinstance(n.left, ast.Name) and isinstance(n.comparators[0], ast.Name) \
+                and type(n.ops[0]) in PYOP:
+            ops.add((n.left.id, n.comparators[0].id))
+    if not ops:
+        raise AnchorError("compare_values: operator arms not found")
+    a, b = sorted(ops)[0]
+    defs = local_all_defs(cv)
+
+    def quantity_defs(nm):
+        out = []
+        for d in defs.get(nm, []):
+            for x in ast.walk(d):
+                if isinstance(x, ast.Call) and isinstance(x.func, ast.Attribute) and x.func.attr == "Quantity":
+                    out.append(x)
+        return out
+    qa, qb = quantity_defs(a), quantity_defs(b)
+    inst = "compare_values: Quantity operands of different units are brought to a common unit first"
+    if not qa and not qb:
+        ctx.ok("R21e", inst + " (no pint Quantity operands)", trivial=True)
+        return
+    converted = all(any(isinstance(x, ast.Call) and isinstance(x.func, ast.Attribute) and x.func.attr in ("to", "to_base_units", "to_root_units", "m_as", "ito")
+                        for d in defs.get(nm, []) for x in ast.walk(d)) for nm in (a, b))
+    ua = {norm(q.args[1]) for q in qa if len(q.args) > 1}
+    ub = {norm(q.args[1]) for q in qb if len(q.args) > 1}
+    if converted or (ua and ua == ub):
+        ctx.ok("R21e", inst)
+    else:
+        ctx.fail("R21e", cv, (qa or qb)[0], inst, f"`{a}` is built in unit {sorted(ua)} and `{b}` in unit {sorted(ub)} and the six operators are applied to the "
+                 "Quantity objects directly: each operator converts differently and rounds to 28 digits, so `3 h` vs `180 min` satisfies "
+                 "neither `=` nor `!=`; `0 degC` vs `32 degF` satisfies both; `1 L/h` vs `24 L/d` gives `<` and `=` together; `24 L/d` vs "
+                 "`1 L/h` has `=` but not `<=`")
+
+
+def run(ctx) -> None:
+    _run_main(ctx)
+    _r21e(ctx)
